@@ -480,6 +480,10 @@ class DrvDomain(Domain):
             self.field_reads.add("threads_per_level_")
         elif isinstance(r, ListObj):
             cells = [x if isinstance(x, Cell) else Cell(x, "%s[%d]" % (r.name, i)) for i, x in enumerate(r.items)]
+        elif isinstance(r, Opaque) and "not modelled" in str(r.tag):
+            # a loop over a container the model has no place for (per-level counters): how often its body runs is unknown;
+            # run it once over an unknown element so that what it touches is seen, and once not at all via the fork below
+            cells = [Cell(Opaque(r.tag), "element of an unmodelled member")] if self.choose(S("nonempty", r.tag), s, fr) else []
         else:
             raise AnalysisBroken("range-for over %r not modelled at %s" % (r, ir.locstr(s)))
         is_ref = (v.get("t") or "").rstrip().endswith("&")
@@ -545,6 +549,14 @@ class DrvDomain(Domain):
                     v = it.rvalue(args[0], fr)
                     return v if isinstance(v, Ptr) else Ptr(v is not None, t)
                 return Ptr(False, t)
+            # an object of a class the driver model has no place for (a counter, a timer wrapper, an atomic): whatever it is,
+            # it is not one of the vectors, operators or scalars the value flow tracks; keep it as a defined, unknown value
+            # (a decision that reads it is explored both ways, a statistic that takes it becomes that unknown value)
+            cls_ = self.prog.classes.get(t.split("<")[0]) or self.prog.classes.get(t)
+            if cls_ is not None or t.startswith("std::atomic<") or t.startswith("std::array<") or t.startswith("std::vector<int") or t.startswith("std::vector<double"):
+                for a in args:
+                    it.rvalue(a, fr)
+                return Opaque("object of %s (not modelled)" % t)
             raise AnalysisBroken("construction of %s not modelled at %s" % (t, site))
 
         this = None
@@ -553,6 +565,18 @@ class DrvDomain(Domain):
             if isinstance(this, Cell):
                 this = this.get()
 
+        # ---- anything called ON an unmodelled member / object (counters, timers, atomics): evaluated for its arguments only
+        if isinstance(this, Opaque) and "not modelled" in str(this.tag) and k == "Call":
+            for a in args:
+                it.rvalue(a, fr)
+            return Opaque(this.tag)
+        if k == "OpCall" and args and e["op"] in ("++", "--", "+=", "-=", "=", "()"):
+            b0 = it.eval(args[0], fr)
+            v0 = b0.get() if isinstance(b0, Cell) else b0
+            if isinstance(v0, Opaque) and "not modelled" in str(v0.tag):
+                for a in args[1:]:
+                    it.rvalue(a, fr)
+                return b0
         # ---- levels_ vector
         if k == "OpCall" and e["op"] == "[]":
             b = it.rvalue(args[0], fr)
@@ -574,6 +598,8 @@ class DrvDomain(Domain):
                     self.event("oob-list", site, "%s[%d] read but the list has %d entries on this path" % (b.name, i, len(b.items)))
                     return Cell(S("OOB", b.name, i))
                 return Cell(b.items[i], "%s[%d]" % (b.name, i))
+            if isinstance(b, Opaque) and "not modelled" in str(b.tag):
+                return Cell(b, "element of an unmodelled member")     # counters per level and the like
             raise AnalysisBroken("operator[] on %r at %s" % (b, site))
         if k == "OpCall" and e["op"] == "->":
             return it.rvalue(args[0], fr)
